@@ -290,6 +290,7 @@ type world struct {
 	g          *chainkit.Genesis
 	N, E       *chainkit.Node
 	inj        *injectingPool // the application's pool handle of N, with the commit-lock-point hook (sequential lane only)
+	injSender  int            // sender of the submission admitted at the lock point of the commit in progress (-1: none)
 	pc         poolCfg
 	lastCommit *types.Commit
 	wallets    []*chainkit.UWallet
